@@ -145,4 +145,31 @@ def valDiff (S : Schema) (evs : List Ev) : Option (List DNode) :=
     let c := evChain S e
     mergeR S (c.height + 2) acc .none c .none) []
 
+/-- what the caller of a validation sees -/
+structure Verdict where
+  /-- the logged error items in order (`VErr.tok`, or `Other:-:-` for the two items of a failed diff merge) -/
+  errs : List String := []
+  /-- the change set collected -/
+  diff : List DNode := []
+  /-- a change is missing from `diff`: its merge failed and the caller ignored that -/
+  lost : Bool := false
+  stop : Bool := false
+  deriving Repr, Inhabited
+
+/-- go through the log the way the C does: a validation error ends the run unless `LYD_VALIDATE_MULTI_ERROR`; every change is
+merged into the diff; a merge that fails ends the run with `LY_EINVAL` when it came from `lyd_new_implicit` / `lyd_validate_cases`
+and is silently lost otherwise -/
+def judge (S : Schema) (multi : Bool) (log : List Item) : Verdict :=
+  log.foldl (fun (v : Verdict) it =>
+    if v.stop then v else
+    match it with
+    | .err e => { v with errs := v.errs ++ [e.tok], stop := !multi }
+    | .ev e =>
+      let c := evChain S e
+      match mergeR S (c.height + 2) v.diff .none c .none with
+      | some d => { v with diff := d }
+      | none =>
+        if e.src == .autodel then { v with lost := true }
+        else { v with errs := v.errs ++ ["Other:-:-", "Other:-:-"], stop := true }) {}
+
 end LyModel.Valid
